@@ -2849,7 +2849,8 @@ package goatlang
 //@   nopanic
 //@ func (Type).str
 //@   property C03
-//@   trusted
+//@   axioms BRIDGE_ORD
+//@   requires g != nil
 //@   nopanic
 //@ func (*instruction).String
 //@   property C03
